@@ -1,6 +1,9 @@
 import Ledger.Driver.Core
 import Ledger.Driver.ApiVars
 import Ledger.Driver.ApiHttp
+import Ledger.Driver.ApiTxBody
+import Ledger.Driver.ApiCursor
+import Ledger.Driver.ApiInterp
 
 /-! Handler table of `ldriver_api` (Api area: C38, C36, C26). -/
 namespace Ledger.Driver.Api
@@ -9,7 +12,11 @@ open Ledger.Driver
 def handlers : List (String × Handler) := [
   ("vars", handleVars),
   ("vars36", handleVars36),
-  ("http", handleHttp)
+  ("http", handleHttp),
+  ("txbody", handleTxbody),
+  ("txbody36", handleTxbody36),
+  ("cursor", handleCursor),
+  ("interp", handleInterp)
 ]
 
 end Ledger.Driver.Api
